@@ -7,6 +7,8 @@ pub fn family() -> Family {
     Family { name: "c03", cases, check }
 }
 
+const HI_PREFIXES: [&[u8]; 34] = [b"#\\a", b"#\\space", b"#\\x41", b"#\\x", b"#\\", b"?a", b"?\\", b"?\\^", b"?\\x4", b"?\\N{U+4", b"a", b"abc", b":k", b"#:k", b"k:", b"1", b"1.", b"1e", b"1e+", b"-", b"+", b".", b"#x1", b"#", b"#t", b"#u8", b"#u8(1", b"(a .", b"(a . b", b"\"a", b"\"\\x4", b"\"\\", b"'", b",@"];
+
 fn cases(ob: &str) -> Vec<String> {
     let mut out = vec![];
     if ob.contains("arith[") { return out; }   // integer-overflow obligations need inputs beyond what this family generates
@@ -15,6 +17,8 @@ fn cases(ob: &str) -> Vec<String> {
         out.push(format!("deep:{}:{}:200000", name, crate::hex(unit.as_bytes())));
     }
     out.push("nest100:".into());
+    // every byte >= 0x80 (and every ASCII control byte) directly after each kind of token start / complete token
+    for (i, _) in HI_PREFIXES.iter().enumerate() { out.push(format!("hibyte:{}", i)); }
     out.push("leakq:0".into()); out.push("leakq:1".into());
     if let Some(seed) = crate::gen::thorough_seed(ob) { for t in crate::gen::texts(seed, crate::gen::scale(ob, 600), true) { out.push(format!("bytes:{}", crate::hex(t.as_bytes()))); } }
     // numeric edge cases around the float scaling table (exponent magnitudes 307..311, 616..618) and digit-count limits
@@ -54,6 +58,16 @@ fn check(case: &str) -> Option<String> {
     let p: Vec<&str> = case.split(':').collect();
     match p[0] {
         "bytes" => { all_apis(&crate::unhex(p[1])); None }
+        "hibyte" => {
+            let pre = HI_PREFIXES[p[1].parse::<usize>().ok()?];
+            for b in (0x80u16..=0xff).chain(0u16..0x20).chain(0x7f..0x80) {
+                for tail in [&b""[..], b" x", b"\xa9)", b"\""] {
+                    let mut v = pre.to_vec(); v.push(b as u8); v.extend_from_slice(tail);
+                    all_apis(&v);
+                }
+            }
+            None
+        }
         "nest100" => {
             for (o, c, n) in [("(", ")", 100usize), ("#(", ")", 100), ("'(", ")", 50), ("'", "", 100)] {
                 let t = format!("{}{}{}", o.repeat(n), if c.is_empty() { "x" } else { "" }, c.repeat(n));
